@@ -6,6 +6,7 @@ import (
 	"fmt"
 	"io"
 	"io/fs"
+	"net"
 	"os"
 	"os/exec"
 	"path/filepath"
@@ -504,6 +505,10 @@ func runSourceFaults(c *Ctx) error {
 			if r.kind == "content-source" && r.name != "contents.glob" && !rpmOnlyType {
 				variants = append(variants, "repointed+disable_globbing", "renamed-away+disable_globbing")
 			}
+			if r.kind == "content-source" && r.name != "contents.glob" && r.name != "contents.tree" {
+				// the source exists but is nothing that can be read: a unix socket left behind by a service (open fails)
+				variants = append(variants, "socket-in-its-place")
+			}
 			for _, variant := range variants {
 				noglob := strings.HasSuffix(variant, "+disable_globbing")
 				var err error
@@ -523,6 +528,18 @@ func runSourceFaults(c *Ctx) error {
 						c.Rep.Note("source-faults: mkdir %s: %v", missing, merr)
 						continue
 					}
+					err, pv = safePackage(f, mk(map[string]string{r.name: missing}, noglob), io.Discard)
+				case "socket-in-its-place":
+					_ = os.MkdirAll(filepath.Join(dir, "gone"), 0o755)
+					missing = filepath.Join(dir, "gone", "s-"+f)
+					_ = os.Remove(missing)
+					l, lerr := net.Listen("unix", missing)
+					if lerr != nil {
+						c.Rep.Note("source-faults: socket %s: %v", missing, lerr)
+						continue
+					}
+					l.(*net.UnixListener).SetUnlinkOnClose(false)
+					_ = l.Close()
 					err, pv = safePackage(f, mk(map[string]string{r.name: missing}, noglob), io.Discard)
 				case "dangling-symlink":
 					missing = filepath.Join(dir, "gone", "dangling-"+filepath.Base(r.path))
@@ -828,6 +845,10 @@ func runCli(c *Ctx, tree *SrcTree) error {
 			{name: "missing-script", yaml: cliYAML("1.2.3", "", "linux", valid, map[string]string{"postinstall": okScript, "preinstall": missingScript}, ""), mention: filepath.Base(missingScript)},
 			{name: "dev-full", yaml: cliYAML("1.2.3", "", "linux", valid, map[string]string{"postinstall": okScript}, ""), devFull: true},
 			{name: "invalid-setting", yaml: invalid},
+			// a setting the configuration cannot have (a misspelled key): the script or key the user meant is otherwise
+			// silently left out of a package that is reported as built
+			{name: "misspelled-key", yaml: cliYAML("1.2.3", "", "linux", valid, map[string]string{"postinstall": okScript}, "") + "scripts_typo:\n  postinstal: " + okScript + "\n", mention: "scripts_typo"},
+			{name: "misspelled-nested-key", yaml: cliYAML("1.2.3", "", "linux", valid, map[string]string{"postinstall": okScript}, "") + "deb:\n  signature:\n    keyfile: /no/such/key.asc\n", mention: "keyfile"},
 		}
 		for _, cs := range cases {
 			if cs.devFull && fullErr != nil {
